@@ -168,7 +168,8 @@ def snapTable (mode : Mode) (h : SnapSt) (m : SnapM) : Outcome :=
   match h with
   | .released =>
     if m = .release then ⟨.ok, [], false⟩                  -- no-op
-    else if m = .string then ⟨.panic, [], false⟩           -- `snap.elem` is nil after `Release`
+    else if m = .string then ⟨.ok, [], false⟩              -- prints "leveldb.Snapshot{released}" (it used to
+                                                            -- dereference the nil `snap.elem`: fixed in the repository)
     else ⟨.released, [], false⟩                             -- `snap.released` is checked before `db.ok()`
   | .live =>
     if m = .release ∨ m = .string then ⟨.ok, [], false⟩
@@ -179,7 +180,7 @@ def snapTable (mode : Mode) (h : SnapSt) (m : SnapM) : Outcome :=
 /-- a committed or discarded transaction -/
 def txDoneRow (mode : Mode) (m : TxM) : Outcome :=
   if m = .discard then ⟨.ok, [], false⟩                    -- no-op
-  else if m = .writeEmpty then ⟨.ok, [], false⟩            -- returns nil before `tr.closed` is looked at
+  -- `Write` looks at `tr.closed` before the empty-batch shortcut (it used to return nil first: fixed)
   else if m = .commit then ⟨if mode = .closed then .closed else .txdone, [], false⟩   -- `db.ok()` first
   else ⟨.txdone, [], false⟩
 
@@ -382,10 +383,11 @@ def run (c : Cfg) (s : St) : List Ev → St × List Act
     let (s', as) := run c r.st es
     (s', r.acts ++ as)
 
-/-- result of `openDB`.  Read-only: `recoverJournalRO` returns the stale `io.EOF` of `journal.Reader.Reset` as soon
-as a second journal has to be replayed, and `Open` fails (class `other`). -/
-def openCls (ro : Bool) (journals : Nat) : Cls :=
-  if ro && journals ≥ 2 then .other else .ok
+/-- result of `openDB` on a storage a cleanly closed (or crashed) DB left, whatever the number of journals to
+replay.  (Remark: `recoverJournalRO` used to return the stale `io.EOF` of `journal.Reader.Reset` as soon as a
+second journal had to be replayed, so that a read-only `Open` failed with class `other` for `journals ≥ 2`;
+fixed in the repository, the value of `Reset` is ignored as on the read-write path.) -/
+def openCls (_ro : Bool) (_journals : Nat) : Cls := .ok
 
 def openActs (ro : Bool) : List Act :=
   if ro then [.lock, .getMeta, .open, .read, .list, .open, .read]
